@@ -1,1 +1,7 @@
-// hook content for timer8 (filled in later)
+// Included at the end of /repo/src/modules/timer8.rs (cfg koge29_verif): property C17 harnesses need the
+// private fields of Timer8_0.
+#[cfg(kani)]
+#[allow(dead_code, unused_imports, static_mut_refs)]
+mod verif_c17 {
+    include!(concat!(env!("KOGE29_VERIF_DIR"), "/kani/h_c17.rs"));
+}
